@@ -321,9 +321,17 @@ PROPS["C23"] = dict(
                 "BOUNDED: random sequences (<= 7) of push/pull/extend/update/remove/clear over 4 values with duplicates on durable Durq and Dusq with a real LMDB store, close + "
                 "reopen and resync of a FRESH queue object at random positions; after every operation the cache and the durable copy must equal the model.")
 PROPS["C24"] = dict(
-    contracts=[], harness="harness.durable_native:C24", level="exploration", technique="bounded model-based runtime check against dict-of-value / list / ordered-set models with a real LMDB store -- stand-in",
-    explanation="Bounded stand-in: random sequences (<= 9) of put/pin/add/get/pop/rem/cnt on Suber, IoSuber, IoSetSuber over adversarial key sets (prefixes of each other, keys containing the "
-                "separator, keys that look like another key's io-key); after every operation EVERY key of the set is read back and compared with the model (non-interference).")
+    contracts=["contracts.c24_suffix"], harness="harness.durable_native:C24", level="other",
+    technique="contract-based deductive verification (pyvc, cvc5 for the word equation) of the io-key encoding Duror.suffix / unsuffix; bounded model-based runtime check against "
+              "dict-of-value / list / ordered-set models with a real LMDB store for every store operation",
+    trusted_base=["EXT: b'%032x' % ion is HEX32(ion): 32 characters without '.', int(HEX32(i), 16) == i; bytes.rsplit(sep, 1) splits at the rightmost separator; "
+                  "everything inside LMDB (cursor order, set_range, delete) is outside the verifier's reach"],
+    assumptions=["only the key encoding is under contract; put/pin/add/get/pop/rem/cnt over cursors and the non-interference between keys are decided by the bounded tier only"],
+    explanation="PROVED for any key bytes (also keys containing or ending with the separator, or looking like another key's io-key) and any ordinal: suffix(key, ion) == key ++ '.' ++ "
+                "32 hex digits; unsuffix(suffix(key, ion)) == (key, ion); the encoding is injective, so io-keys of different (key, ordinal) pairs never collide. "
+                "BOUNDED: random sequences (<= 9) of put/pin/add/get/pop/rem/cnt on Suber, IoSuber, IoSetSuber over adversarial key sets (prefixes of each other, keys containing the "
+                "separator, keys that look like another key's io-key) with a real LMDB store; after every operation EVERY key of the set is read back and compared with the model "
+                "(non-interference).")
 
 PROPS["C28"] = dict(
     contracts=[], harness="harness.c28", level="exploration", technique="bounded runtime contract `type(r) is cls and r == self` for r = cls._fromX(self._asX()) -- stand-in (thin wrappers around json/cbor2/msgpack and dataclass reflection)",
